@@ -10,9 +10,13 @@ import PygProofs.Lemmas.ZipLemmas
 import PygProofs.Lemmas.WaiterLemmas
 import PygModel.LiftX
 import PygModel.Txt
+import PygProofs.Lemmas.TxtLemmas
 import PygProofs.Lemmas.LiftXLemmas
+import PygProofs.Lemmas.LiftXRecLemmas
 import PygModel.WaiterF
 import PygProofs.Lemmas.WaiterFLemmas
+import PygModel.WaiterLog
+import PygProofs.Lemmas.WaiterLogLemmas
 
 namespace Pyg.Props.C19
 open Pyg
@@ -1532,5 +1536,310 @@ example :
     have : pickLevel v (.idx 0) other = other := by decide +kernel
     rw [this] at h2
     exact hno h2
+
+/-! ## round k6: open items of the four reviews
+
+### the multi-level converse of `select_statement` -/
+
+/-- **Clauses 4 + 5 through every level, as an iff (the multi-level converse of `select_statement`).** -/
+theorem select_statement_iff : ∀ (p : Path) (v c : Val), c.KeysNodup → (v.at p).isSome →
+    ((∀ q, q <+: p → select v q c = pickAlong v q c) ↔ NotSearched v p c)
+  | [], v, c, _, _ => by
+      simp only [NotSearched, iff_true]
+      intro q hq
+      have : q = [] := List.prefix_nil.1 hq
+      subst this; simp [select, pickAlong]
+  | s :: p, v, c, hc, hp => by
+      cases hv : v.child s with
+      | none => simp [Val.at, hv] at hp
+      | some v' =>
+        have hp' : (v'.at p).isSome := by simpa [Val.at, hv] using hp
+        have ih := select_statement_iff p v' (pickLevel v s c) (pickLevel_KeysNodup v s c hc) hp'
+        simp only [NotSearched, hv]
+        constructor
+        · intro h
+          have h1 : selStep v s c = pickLevel v s c := by
+            have := h [s] (by simp)
+            simpa [select, pickAlong, hv] using this
+          refine ⟨(selStep_eq_pickLevel_iff v v' s c hv hc).1 h1, ih.1 ?_⟩
+          intro q hq
+          have := h (s :: q) (by simpa using hq)
+          simpa [select, pickAlong, hv, h1] using this
+        · rintro ⟨h1, h2⟩ q hq
+          cases q with
+          | nil => simp [select, pickAlong]
+          | cons t q =>
+            obtain ⟨rfl, hq'⟩ : t = s ∧ q <+: p := by simpa using hq
+            have e1 := selStep_statement v v' t c hv hc h1
+            simp only [select, pickAlong, hv, e1]
+            exact ih.2 h2 q hq'
+
+/-- the FIRST level of the K3 class on a path is where code and statement part -/
+theorem select_searched_first : ∀ (p : Path) (s : Step) (v vp v' c : Val), c.KeysNodup → v.at p = some vp →
+    vp.child s = some v' → NotSearched v p c → SearchedStep vp (pickAlong v p c) →
+    select v (p ++ [s]) c ≠ pickAlong v (p ++ [s]) c
+  | [], s, v, vp, v', c, _, hp, hs, _, hk => by
+      have : vp = v := by simpa [Val.at] using hp.symm
+      subst this
+      simp only [List.nil_append, select, pickAlong, hs]
+      exact selStep_searched vp v' s c hs (by simpa [pickAlong] using hk)
+  | t :: p, s, v, vp, v', c, hc, hp, hs, hn, hk => by
+      cases hv : v.child t with
+      | none => simp [Val.at, hv] at hp
+      | some v1 =>
+        have hp1 : v1.at p = some vp := by simpa [Val.at, hv] using hp
+        simp only [NotSearched, hv] at hn
+        have e1 := selStep_statement v v1 t c hv hc hn.1
+        simp only [List.cons_append, select, pickAlong, hv, e1]
+        apply select_searched_first p s v1 vp v' (pickLevel v t c) (pickLevel_KeysNodup v t c hc) hp1 hs hn.2
+        simpa [pickAlong, hv] using hk
+
+
+/-- non-vacuity of `select_searched_first`: `rec([[1,2],3], [[[10,20],[30,40],[50,60]], 7])`.  The outer level matches (the
+companion has the looped length 2) and hands `[[10,20],[30,40],[50,60]]` down to `[1,2]`; that level is of the K3 class (length 3,
+not 2, but lists of length 2 inside): the leaf `2` receives `[20,40,60]`, the statement says the whole list -/
+example :
+    let v : Val := .list [.list [.cell (.int 1), .cell (.int 2)], .cell (.int 3)]
+    let c : Val := .list [.list [.list [.cell (.int 10), .cell (.int 20)], .list [.cell (.int 30), .cell (.int 40)],
+                                 .list [.cell (.int 50), .cell (.int 60)]], .cell (.int 7)]
+    NotSearched v [.idx 0] c ∧ select v [.idx 0, .idx 1] c ≠ pickAlong v [.idx 0, .idx 1] c ∧
+    select v [.idx 0, .idx 1] c = .list [.cell (.int 20), .cell (.int 40), .cell (.int 60)] ∧
+    pickAlong v [.idx 0, .idx 1] c = .list [.list [.cell (.int 10), .cell (.int 20)], .list [.cell (.int 30), .cell (.int 40)],
+                                 .list [.cell (.int 50), .cell (.int 60)]] := by
+  intro v c
+  refine ⟨⟨fun h => ?_, trivial⟩, by decide +kernel, by decide +kernel, by decide +kernel⟩
+  have := h.1; revert this; decide +kernel
+
+/-! ### `replace` / `split`: the companion clause for the public signatures -/
+
+/-- the call the public `replace(text, old, new)` makes: `_replace(text, old = old, new = new)` (_txt.py:84-95), and
+`split(text, sep, dedup)`: `_split(text, sep = sep, dedup = dedup)` (_txt.py:186-215) -/
+def replaceCall (f : LeafFn) (text old new : Val) : Res Val := wrapped f text [] [("old", old), ("new", new)]
+def splitCall (f : LeafFn) (text sep dedup : Val) : Res Val := wrapped f text [] [("sep", sep), ("dedup", dedup)]
+
+theorem two_keyword_companions (f : LeafFn) (k1 k2 : String) (h1 : k1 ≠ "axis") (h2 : k2 ≠ "axis")
+    (v c d r : Val) (p : Path) (a : Cell)
+    (h : wrapped f v [] [(k1, c), (k2, d)] = .ok r) (hp : v.at p = some (.cell a)) :
+    ∃ y, f (.cell a) [] [(k1, select v p c), (k2, select v p d)] = .ok y ∧ r.at p = some y := by
+  obtain ⟨y, hy, hr⟩ := lift_leaves f v [] [(k1, c), (k2, d)] r p a h hp
+  refine ⟨y, ?_, hr⟩
+  have hd : dropAxis [(k1, c), (k2, d)] = [(k1, c), (k2, d)] := by simp [dropAxis, h1, h2]
+  simpa [hd, mapKW] using hy
+
+/-- **`replace` / `split`: the companion clause for the two public signatures.**  For ANY leaf function, any nested text
+structure and any `old` / `new` (`sep` / `dedup`): the leaf at path `p` is the leaf function applied to the text leaf with the
+keywords `old` / `new` (`sep` / `dedup`) holding what the STATEMENT selects for that position (`pickAlong`: the member of a
+matching container at every level, else the whole) - provided no level is of the K3 class. -/
+theorem replace_companions (f : LeafFn) (text old new r : Val) (p : Path) (a : Cell)
+    (ho : old.KeysNodup) (hn : new.KeysNodup)
+    (h : replaceCall f text old new = .ok r) (hp : text.at p = some (.cell a))
+    (so : NotSearched text p old) (sn : NotSearched text p new) :
+    ∃ y, f (.cell a) [] [("old", pickAlong text p old), ("new", pickAlong text p new)] = .ok y ∧ r.at p = some y := by
+  have hp' : (text.at p).isSome := by simp [hp]
+  rw [← select_statement p text old ho hp' so, ← select_statement p text new hn hp' sn]
+  exact two_keyword_companions f "old" "new" (by decide) (by decide) text old new r p a h hp
+
+theorem split_companions (f : LeafFn) (text sep dedup r : Val) (p : Path) (a : Cell)
+    (hs : sep.KeysNodup) (hd : dedup.KeysNodup)
+    (h : splitCall f text sep dedup = .ok r) (hp : text.at p = some (.cell a))
+    (ss : NotSearched text p sep) (sd : NotSearched text p dedup) :
+    ∃ y, f (.cell a) [] [("sep", pickAlong text p sep), ("dedup", pickAlong text p dedup)] = .ok y ∧ r.at p = some y := by
+  have hp' : (text.at p).isSome := by simp [hp]
+  rw [← select_statement p text sep hs hp' ss, ← select_statement p text dedup hd hp' sd]
+  exact two_keyword_companions f "sep" "dedup" (by decide) (by decide) text sep dedup r p a h hp
+
+/-- the instance the docstring of `replace` contradicts: `n` texts and a list of `n` strings to replace are PAIRED (text `i` has
+only `olds[i]` removed), while a list of another length is applied whole to every text -/
+theorem replace_pairs_elementwise (f : LeafFn) (xs cs : List Val) (new : Cell) (r : Val) (i : Nat) (a : Cell)
+    (hl : cs.length = xs.length) (hx : xs[i]? = some (.cell a))
+    (h : replaceCall f (.list xs) (.list cs) (.cell new) = .ok r) :
+    ∃ y, f (.cell a) [] [("old", getIdx cs i), ("new", .cell new)] = .ok y ∧ r.at [.idx i] = some y := by
+  have hp : (Val.list xs).at [.idx i] = some (.cell a) := by simp [Val.at, Val.child, hx]
+  obtain ⟨y, hy, hr⟩ := two_keyword_companions f "old" "new" (by decide) (by decide) _ _ _ r _ a h hp
+  refine ⟨y, ?_, hr⟩
+  have e1 : select (.list xs) [.idx i] (.list cs) = getIdx cs i := by
+    simp [select, Val.child, hx, (selStep_same_length xs cs i hl).1]
+  have e2 : select (.list xs) [.idx i] (.cell new) = .cell new := by
+    simp [select, Val.child, hx, selStep, itemByI]
+  simpa [e1, e2] using hy
+
+example : replaceCall recorderPure (.list [.cell (.str "a-b"), .cell (.str "c-d")])
+      (.list [.cell (.str "a"), .cell (.str "d")]) (.cell (.str "")) =
+    .ok (.list [.tuple [.cell (.str "a-b"), .tuple [], .dict [("old", .cell (.str "a")), ("new", .cell (.str ""))]],
+                .tuple [.cell (.str "c-d"), .tuple [], .dict [("old", .cell (.str "d")), ("new", .cell (.str ""))]]]) := by
+  decide +kernel
+
+
+/-! ### the waiter extension without failure events IS the model of the statement -/
+
+/-- **`WaiterF` refines `Waiter`.**  Run on result events only, the extended task machine (failing awaitables, `TaskF`) is in
+the state of the machine of the statement, embedded (`Task.toF`) - for every structure and every sequence of events, complete
+or not, in any order, with repetitions.  So `waiter_first_failure_wins` and the `waiter_*` theorems speak about ONE machine. -/
+theorem waiterF_without_failures (w : W) (evs : List (Nat × Val)) :
+    runEventsF w (evs.map fun e => (e.1, (Except.ok e.2 : Outcome))) = (runEvents w evs).toF := by
+  simp only [runEventsF, runEvents, startF_toF]
+  exact foldF_toF evs _
+
+/-- … hence what the caller sees is the same -/
+theorem waiterF_outcome_without_failures (w : W) (evs : List (Nat × Val)) :
+    (runEventsF w (evs.map fun e => (e.1, (Except.ok e.2 : Outcome)))).outcome = (runEvents w evs).result.map Except.ok := by
+  rw [waiterF_without_failures]
+  cases runEvents w evs <;> simp [Task.toF, TaskF.outcome, Task.result]
+
+/-- … and schedule independence holds of the extended machine as long as nothing fails -/
+theorem waiterF_confluent (w : W) (res : Nat → Val) (σ : List Nat) (h : σ.Perm (awaitables w)) :
+    (runEventsF w (σ.map fun i => (i, (Except.ok (res i) : Outcome)))).outcome = some (.ok (resolve res w)) := by
+  have := waiterF_outcome_without_failures w (σ.map fun i => (i, res i))
+  simp only [List.map_map] at this
+  rw [waiter_confluent w res σ h] at this
+  simpa [Function.comp_def] using this
+
+
+/-! ### the waiter with a LOG-BASED gather (PygModel/WaiterLog.lean): "positional" is a lemma, not the construction -/
+
+/-- **`asyncio.gather` returns its children's results positionally** - proved of a gather node that only keeps a log of
+completions in ARRIVAL order `(child index, result)`: for any log that is a permutation of the children's completion records
+(any arrival order), once all children are done the log holds one record per child and the results read off it are the
+children's results in the order of the children. -/
+theorem gather_positional (children : List TaskL) (vs : List Val) (log : List (Nat × Val))
+    (hall : allRet (TaskL.toTaskList children) = some vs) (hp : log.Perm (doneLog 0 children)) :
+    log.length = children.length ∧ logResults children.length log = vs :=
+  logResults_positional children vs log hall hp
+
+example : logResults 3 [(2, .cell (.int 30)), (0, .cell (.int 10)), (1, .cell (.int 20))] =
+    [.cell (.int 10), .cell (.int 20), .cell (.int 30)] := by decide +kernel
+
+/-- **The log machine refines the slot machine**: for every structure and every sequence of completion events (any order,
+incomplete, with repetitions), forgetting the logs of the log-based task tree gives the task tree of `PygModel.Waiter` - so what
+the awaiting caller sees is the same, and `waiter_order_irrelevant`, `waiter_any_schedule`, `waiter_confluent`,
+`waiter_suspended` are theorems about the log-based machine too. -/
+theorem waiterL_refines (w : W) (evs : List (Nat × Val)) : (runEventsL w evs).toTask = runEvents w evs := by
+  obtain ⟨h1, h2⟩ := startL_refines w
+  have := (foldL_refines evs (startL w) h2).1
+  simpa [runEventsL, runEvents, h1] using this
+
+theorem waiterL_result (w : W) (evs : List (Nat × Val)) : (runEventsL w evs).result = (runEvents w evs).result := by
+  rw [← waiterL_refines, toTask_result]
+
+/-- schedule independence of the log-based machine: every completion order gives the resolved structure … -/
+theorem waiterL_confluent (w : W) (res : Nat → Val) (σ : List Nat) (h : σ.Perm (awaitables w)) :
+    (runEventsL w (σ.map fun i => (i, res i))).result = some (resolve res w) := by
+  rw [waiterL_result]; exact waiter_confluent w res σ h
+
+/-- … and not before the last awaitable is done -/
+theorem waiterL_suspended (w : W) (res : Nat → Val) (σ : List Nat) (h : ∃ i ∈ awaitables w, i ∉ σ) :
+    (runEventsL w (σ.map fun i => (i, res i))).result = none := by
+  rw [waiterL_result]; exact waiter_suspended w res σ h
+
+
+/-! ### `liftx_refines` for the recording function of the extended driver -/
+
+/-- **Refinement up to the leaf results.**  `liftx_refines` wants a leaf function that returns, on plain arguments, exactly the
+embedded result of the plain one (`Extends`; instantiated for the identity).  The recording function of the `liftx` driver
+returns an opaque record OBJECT where the plain recorder returns a tuple, so they are related only up to a map `g` of the
+results that goes through lists, tuples and dicts: then the extended model, mapped, is the model of the statement. -/
+theorem liftx_refines_upto (g : XVal → XVal) (hg : ThroughContainers g) (T : LoopTypes) (f' : XLeafFn) (f : LeafFn)
+    (hl : T.list = true) (ht : T.tuple = true) (hd : T.dicts.contains 0 = true) (hf : ExtendsUpTo g f' f)
+    (v : Val) (args : List Val) (kw : KW) :
+    (wrappedX T f' v.emb (Val.embList args) (Val.embKVs kw)).map g = (wrapped f v args kw).map Val.emb :=
+  wrappedX_embed_upto g hg T f' f hl ht hd hf v args kw
+
+/-- … and the two recording functions ARE so related (`XVal.unobj` reads a record object as the tuple of its fields and leaves
+plain values alone): what the `liftx` lines compare on plain lists / tuples / dicts is what the `lift call` lines compare. -/
+theorem liftx_refines_recorder (T : LoopTypes) (hl : T.list = true) (ht : T.tuple = true) (hd : T.dicts.contains 0 = true)
+    (v : Val) (args : List Val) (kw : KW) :
+    (wrappedX T recorderX v.emb (Val.embList args) (Val.embKVs kw)).map XVal.unobj =
+      (wrapped recorder v args kw).map Val.emb :=
+  liftx_refines_upto XVal.unobj unobj_through T recorderX recorder hl ht hd recorderX_extends v args kw
+
+
+/-! ### `split` as a closed model (one-character separator) -/
+
+/-- **`text.split(sep)`, characterised**: the words are exactly the way to write the text as separator-free words joined by the
+separator (`sep.join(text.split(sep)) == text`, no word holds the separator - and there is no other such list) -/
+theorem split_iff (sep : Char) (cs w : List Char) (ws : List (List Char)) :
+    splitChars sep cs = w :: ws ↔ sep ∉ w ∧ (∀ x ∈ ws, sep ∉ x) ∧ joinChars sep w ws = cs := by
+  constructor
+  · intro h
+    simp only [splitChars, List.cons.injEq] at h
+    obtain ⟨rfl, rfl⟩ := h
+    exact ⟨(splitAux_no_sep sep cs).1, (splitAux_no_sep sep cs).2, splitAux_join sep cs⟩
+  · rintro ⟨h1, h2, h3⟩
+    simp [splitChars, splitAux_unique sep cs w ws h1 h2 h3]
+
+/-- one word more than there are separators in the text -/
+theorem split_count (sep : Char) (cs : List Char) : (splitChars sep cs).length = cs.count sep + 1 := by
+  simp [splitChars, splitAux_length]
+
+example : splitChars ',' "a,,b".toList = ["a".toList, [], "b".toList] ∧ splitChars ',' [] = [[]] := by decide
+
+/-- **`pyg_base.split` on nested text (closed model: lifting + leaf)**: the text leaf at `p` is replaced by the list of its words,
+without the empty ones when `dedup` -/
+theorem lib_split_spec (v r : Val) (c : Char) (dedup : Bool) (p : Path) (t : String)
+    (h : libSplit v (String.singleton c) dedup = .ok r) (hp : v.at p = some (.cell (.str t))) :
+    r.at p = some (.list ((if dedup then (splitChars c t.toList).filter (fun w => !w.isEmpty) else splitChars c t.toList).map
+      fun w => .cell (.str (String.ofList w)))) := by
+  obtain ⟨y, hy, hr⟩ := two_keyword_companions splitLeaf "sep" "dedup" (by decide) (by decide) v _ _ r p (.str t) h hp
+  rw [hr]
+  simp only [select_scalar] at hy
+  have hs : (String.singleton c).toList = [c] := String.toList_singleton c
+  simp only [splitLeaf, hs] at hy
+  cases hy
+  rfl
+
+
+/-! ### `replace` of one character as a closed model -/
+
+/-- **`text.replace(old, new)` through an independent reading**: it is `new.join(text.split(old))` - the text cut at every `old`,
+the pieces glued with `new` … -/
+theorem replace_eq_join_split (old : Char) (new cs : List Char) :
+    ∃ w ws, splitChars old cs = w :: ws ∧ replaceChars old new cs = joinStr new w ws :=
+  ⟨_, _, rfl, replaceChars_eq_join_split old new cs⟩
+
+/-- … the result holds no `old` (which is why the `while` loop of `_replace` stops after one round), and a text without `old`
+is returned as it is -/
+theorem replace_removes_old (old : Char) (new cs : List Char) (hn : old ∉ new) : old ∉ replaceChars old new cs :=
+  replaceChars_no_old old new hn cs
+
+theorem replace_absent (old : Char) (new cs : List Char) (h : old ∉ cs) : replaceChars old new cs = cs :=
+  replaceChars_absent old new cs h
+
+example : replaceChars ',' "--".toList "a,,b".toList = "a----b".toList := by decide
+
+/-- **`pyg_base.replace` on nested text (closed model: lifting + leaf)**, `old` one character, `new` a string that does not hold
+it: the text leaf at `p` has every `old` replaced; when `new` holds `old` the call raises ValueError as soon as there is a text
+leaf (`lib_replace_raises`) -/
+theorem lib_replace_spec (v r : Val) (c : Char) (n : String) (p : Path) (t : String) (hn : n.toList.contains c = false)
+    (h : libReplace v (String.singleton c) (.cell (.str n)) = .ok r) (hp : v.at p = some (.cell (.str t))) :
+    r.at p = some (.cell (.str (String.ofList (replaceChars c n.toList t.toList)))) := by
+  obtain ⟨y, hy, hr⟩ := two_keyword_companions replaceLeaf "old" "new" (by decide) (by decide) v _ _ r p (.str t) h hp
+  rw [hr]
+  simp only [select_scalar] at hy
+  have hs : (String.singleton c).toList = [c] := String.toList_singleton c
+  simp only [replaceLeaf, hs, hn, Bool.false_eq_true, if_false] at hy
+  cases hy
+  rfl
+
+/-- `new = None` removes the character -/
+theorem lib_replace_none_spec (v r : Val) (c : Char) (p : Path) (t : String)
+    (h : libReplace v (String.singleton c) (.cell .none) = .ok r) (hp : v.at p = some (.cell (.str t))) :
+    r.at p = some (.cell (.str (String.ofList (replaceChars c [] t.toList)))) := by
+  obtain ⟨y, hy, hr⟩ := two_keyword_companions replaceLeaf "old" "new" (by decide) (by decide) v _ _ r p (.str t) h hp
+  rw [hr]
+  simp only [select_scalar] at hy
+  have hs : (String.singleton c).toList = [c] := String.toList_singleton c
+  simp only [replaceLeaf, hs, List.contains_nil, Bool.false_eq_true, if_false] at hy
+  cases hy
+  rfl
+
+/-- "cannot replace indefinitely": with a text leaf anywhere and `new` holding `old` the call does not return -/
+theorem lib_replace_raises (v : Val) (c : Char) (n : String) (p : Path) (t : String) (hn : n.toList.contains c = true)
+    (hp : v.at p = some (.cell (.str t))) : ∀ r, libReplace v (String.singleton c) (.cell (.str n)) ≠ .ok r := by
+  intro r h
+  obtain ⟨y, hy, _⟩ := two_keyword_companions replaceLeaf "old" "new" (by decide) (by decide) v _ _ r p (.str t) h hp
+  simp only [select_scalar] at hy
+  have hs : (String.singleton c).toList = [c] := String.toList_singleton c
+  have hm : c ∈ n.toList := by simpa using hn
+  simp [replaceLeaf, hs, hm] at hy
 
 end Pyg.Props.C19
